@@ -147,8 +147,10 @@ class C05(Monitor):
             if post > max(m, pre):
                 out.append((_sig(cfg, 'C05', 'over-capacity'),
                             '%d entries resident after the call (maxsize %d, %d before)' % (post, m, pre)))
+            # (a call that evaluated nested calls is excluded: the overflow may have happened -- and emptied the cache --
+            #  inside, after which the outer result is stored)
             if eff_purge(cfg) and tr.pre.archived and tr.raised is None and not tr.incoherent \
-                    and tr.key not in tr.pre.mem and pre + 1 > m and post != 0:
+                    and not tr.extra.get('nested') and tr.key not in tr.pre.mem and pre + 1 > m and post != 0:
                 out.append((_sig(cfg, 'C05', 'purge-not-empty'),
                             'purge=True archived overflow left %d entries in memory' % post))
         return out
